@@ -224,6 +224,7 @@ func init() {
 		ruleSignConv(c, r, c.anchored("C19"), 0)
 		ruleReflectSign(c, r, c.funcsInScope(func(s string) bool { return s == "ygot/render.go" }, libPkgs), 3)
 		ruleWideKinds(c, r)
+		ruleUnionEmpty(c, r)
 	})
 }
 
@@ -256,6 +257,7 @@ func init() {
 		ruleNilEntry(c, r)
 		ruleFloatLexical(c, r)
 		rulePrecisionBound(c, r)
+		ruleUnionEmpty(c, r)
 	})
 }
 
